@@ -251,6 +251,11 @@ func runWorkers(p *propDef, bin string, ctx *prepCtx, ra runArgs, seed uint64, o
 		shrink = 400
 	}
 	extra, _ := json.Marshal(ctx.Extra)
+	var knownKeys []string
+	for _, e := range sim.LoadKnownFindings(filepath.Join(verifRoot, "known_findings.json")).Open(p.ID) {
+		knownKeys = append(knownKeys, e.Key)
+	}
+	knownJSON, _ := json.Marshal(knownKeys)
 	var wg sync.WaitGroup
 	errs := make([]error, ra.workers)
 	outs := make([][]byte, ra.workers)
@@ -267,7 +272,7 @@ func runWorkers(p *propDef, bin string, ctx *prepCtx, ra runArgs, seed uint64, o
 				"-worker", strconv.Itoa(w), "-nworkers", strconv.Itoa(ra.workers),
 				"-runs", strconv.Itoa(runs), "-maxsec", fmt.Sprintf("%g", maxsec),
 				"-tier", ra.tier, "-out", outDir, "-replays", replayDir,
-				"-extra", string(extra), "-shrink", strconv.Itoa(shrink))
+				"-extra", string(extra), "-shrink", strconv.Itoa(shrink), "-known", string(knownJSON))
 			cmd.Dir = ctx.Scratch
 			procs := os.Getenv("VCHECK_GOMAXPROCS")
 			if procs == "" {
@@ -368,7 +373,9 @@ func cmdRun(args []string) int {
 	for _, v := range ag.Violations {
 		if kf.IsOpen(p.ID, v.Key) {
 			observed[v.Key] = true
-			os.Remove(v.Replay)
+			if v.Replay != "" {
+				os.Remove(v.Replay)
+			}
 			continue
 		}
 		if seen[v.Class+"|"+v.Key] {
